@@ -84,6 +84,11 @@ def _weights(wid, n, rng):
     return w
 
 
+def _spell(name, k):
+    """The same filter method in the spellings the plug-in manager accepts (qualified, any case)."""
+    return [name, "default/" + name, "Default/" + name.title(), name.upper()][k % 4]
+
+
 def _config(n, flavour, first, last, weights):
     from ropt.config.enopt import EnOptConfig  # noqa: PLC0415
 
@@ -92,12 +97,12 @@ def _config(n, flavour, first, last, weights):
     if flavour == "con":
         cfg["objectives"] = {"weights": [1.0]}
         cfg["nonlinear_constraints"] = {"lower_bounds": [-np.inf, 0.0], "upper_bounds": [1.0, np.inf], "realization_filters": [-1, 0]}
-        cfg["realization_filters"] = [{"method": "sort-constraint", "options": {"sort": 1, "first": first, "last": last}}]
+        cfg["realization_filters"] = [{"method": _spell("sort-constraint", n + first + 2 * last), "options": {"sort": 1, "first": first, "last": last}}]
         meta = {}
     else:
         ow, sort = {"obj1": ([1.0], [0]), "obj_multi": ([0.2, 0.5, 0.3], [2, 0]), "obj_neg": ([1.5, -0.5], [1])}[flavour]
         cfg["objectives"] = {"weights": ow, "realization_filters": [0] * len(ow)}
-        cfg["realization_filters"] = [{"method": "sort-objective", "options": {"sort": sort, "first": first, "last": last}}]
+        cfg["realization_filters"] = [{"method": _spell("sort-objective", n + first + 2 * last), "options": {"sort": sort, "first": first, "last": last}}]
         meta = {"ow": ow, "sort": sort}
     return EnOptConfig.model_validate(cfg), meta
 
